@@ -190,9 +190,6 @@ def _fix(layout):
             js, jd = g.pop("tr_join_s"), g.pop("tr_join_d")
             if layout == "S_desc_TR":
                 g["tr_join"] = js
-                if g["secs"][-1]["block"].strip().lower() == "all" and js in (" of ", " in "):
-                    note_excluded("S_desc_TR_block_ALL_of_twprge")
-                    g["tr_join"] = ", "
             else:
                 g["tr_join"] = jd
             out.append(g)
@@ -277,6 +274,4 @@ def validate(d):
                         return False
                 elif not (1 <= it[1] <= 99 and 1 <= it[2] <= 99 and it[1] != it[2]):
                     return False
-        if d["layout"] == "S_desc_TR" and g["secs"][-1]["block"].strip().lower() == "all" and g["tr_join"] in (" of ", " in "):
-            return False
     return True
